@@ -293,11 +293,19 @@ def run(ctx):
             if ctx.tier == "quick" and ctx.elapsed() > 50:
                 ctx.notes.append("stopped after %d encodings (time budget)" % stats["encodings"])
                 break
+    # DAQmx objects through the same inheritance rules: switched off ("no data") and re-enabled by "same as before"
+    if not (len(violations) >= 5 or len(disagreements) >= ctx.dis_limit):
+        import gen_daqmx
+        for i in range(ctx.n(150, 4000)):
+            segs = gen_daqmx.draw(ctx.rnd, max_segs=5, reenable=True)
+            stats["daqmx_encodings"] = stats.get("daqmx_encodings", 0) + 1
+            if handle(segs):
+                break
     return dict(violations=violations[:5], disagreements=disagreements[:20],
                 coverage=dict(evaluations=stats["encodings"], distinct_nontrivial=len(nontrivial),
                               rule="small scope: encodings of 2 (thorough: all 36 864; quick: sampled) and 3 segments over two channels x {full, matches-previous, "
                                    "no-data, unlisted} x new-list x metadata-present x {0,1,2} chunks, invalid ones included; random encodings up to 8 segments x 5 "
-                                   "objects; the three forbidden mutants of every third random encoding; non-trivial = distinct encodings using matches-previous, "
+                                   "objects; the three forbidden mutants of every third random encoding; DAQmx encodings (gen_daqmx, up to 5 segments) whose objects are switched off and re-enabled by matches-previous; non-trivial = distinct encodings using matches-previous, "
                                    "no-data, carried-over lists or no-metadata segments",
                               samples=samples or [dict(note="see feature_counts")], counts=stats, feature_counts=dict(sorted(feats.items())),
                               exhaustive=(ctx.tier == "thorough")))
